@@ -397,6 +397,9 @@ func (g *G) cdxTreeDoc(v int, inClass bool) M {
 	edges := []any{}
 	for i := 1; i < n; i++ {
 		p := ids[g.Int(i)]
+		if !inClass && g.Chance(0.2) {
+			continue // leaves parts of the graph detached from the root
+		}
 		merged := false
 		if g.Chance(0.5) {
 			for _, e := range edges {
@@ -954,11 +957,40 @@ func oracleCdx(op M, res any, exec func(M) any) []Finding {
 		}
 		return out
 	}
+	d := op["doc"].(M)
+	v := int(asInt(op["v"]))
+	// C03 looks at the written bytes and at one write/read pass, whatever the operation was
+	if docWF(d) && d["meta"] != nil && v >= 4 {
+		if raw, err := WriteDoc(DocOf(d), cdxFormat(v), 2); err == nil {
+			for _, m := range cdxCompleteness(d, raw) {
+				add("C03", "%s", m)
+			}
+		}
+		r1 := res
+		if name != "cdxRT" {
+			r1 = exec(M{"op": "cdxRT", "doc": d, "v": op["v"]})
+		}
+		if isDocJ(r1) {
+			dv, rv := View(d["nl"].(M)), View(r1.(M)["nl"].(M))
+			for id, ns := range dv.Nodes {
+				if rs, ok := rv.Nodes[id]; ok && dv.Nodup() {
+					a, b := ns[0], rs[0]
+					if !Equal(attrOf(a, "Name"), attrOf(b, "Name")) && !(asStr(d["meta"].(M)["name"]) != "" && attrOf(a, "Name") == nil) {
+						add("C03", "name of node %q changes across CycloneDX", id)
+					}
+					if v >= 4 && !Equal(attrOf(a, "Version"), attrOf(b, "Version")) {
+						add("C03", "version of node %q changes across CycloneDX", id)
+					}
+					if !Equal(identityAttrs(a)["Hashes"], identityAttrs(b)["Hashes"]) {
+						add("C03", "hashes of node %q change across CycloneDX", id)
+					}
+				}
+			}
+		}
+	}
 	if name == "cdxSer" {
 		return out
 	}
-	d := op["doc"].(M)
-	v := int(asInt(op["v"]))
 	in := inCdxClass(d, v) && v >= 4
 	if in && !isDocJ(res) {
 		add("C02", "a single-rooted containment tree cannot be written and read back as CycloneDX 1.%d: %v", v, res)
@@ -991,28 +1023,6 @@ func oracleCdx(op M, res any, exec func(M) any) []Finding {
 		rev := exec(M{"op": "cdxRT", "doc": d2, "v": op["v"]})
 		if isDocJ(rev) && !Equal(cdxEquiv(d, rev.(M), v), cdxEquiv(d, r, v)) {
 			add("C02", "the result depends on the order in which the edges are stored")
-		}
-	}
-	if name == "cdxRT" && docWF(d) && d["meta"] != nil && v >= 4 {
-		if raw, err := WriteDoc(DocOf(d), cdxFormat(v), 2); err == nil {
-			for _, m := range cdxCompleteness(d, raw) {
-				add("C03", "%s", m)
-			}
-		}
-		dv, rv := View(d["nl"].(M)), View(r["nl"].(M))
-		for id, ns := range dv.Nodes {
-			if rs, ok := rv.Nodes[id]; ok && dv.Nodup() {
-				a, b := ns[0], rs[0]
-				if !Equal(attrOf(a, "Name"), attrOf(b, "Name")) && !(asStr(d["meta"].(M)["name"]) != "" && attrOf(a, "Name") == nil) {
-					add("C03", "name of node %q changes across CycloneDX", id)
-				}
-				if v >= 4 && !Equal(attrOf(a, "Version"), attrOf(b, "Version")) {
-					add("C03", "version of node %q changes across CycloneDX", id)
-				}
-				if !Equal(identityAttrs(a)["Hashes"], identityAttrs(b)["Hashes"]) {
-					add("C03", "hashes of node %q change across CycloneDX", id)
-				}
-			}
 		}
 	}
 	return out
